@@ -30,17 +30,23 @@ pub fn family_field_name(name: &Ident) -> Ident{
 
 fn to_upper_camel_case(input: &str) -> String {
 
+    // raw identifiers (`r#type`) are mangled by their plain name
+    let input = input.strip_prefix("r#").unwrap_or(input);
     let words: Vec<&str> = input.split('_').collect();
     let mut struct_name = String::new();
 
-    for (i,word) in words.into_iter().enumerate(){
-        if i== 0 && word == "" {
+    for word in words.into_iter(){
+        // an empty word comes from a leading, trailing or doubled
+        // underscore, keep the underscore 
+        if word == "" {
             struct_name.push_str("_");
             continue; 
         }
-        let (first, rest) = word.split_at(1);
-        struct_name.push_str(&first.to_uppercase());
-        struct_name.push_str(rest);
+        let mut chars = word.chars();
+        if let Some(first) = chars.next() {
+            struct_name.extend(first.to_uppercase());
+            struct_name.push_str(chars.as_str());
+        }
     }
     struct_name
 }
